@@ -32,10 +32,12 @@ RULE = ("seeded configurations x latency scripts x addition scripts; distinct = 
 REQUIRED_BUCKETS = ["align:none", "align:epoch", "align:past-nonmultiple", "align:future", "creation-exactly-aligned",
                     "creation-1us-off", "latency>=1period", "latency-several-periods", "series-added-between-ticks",
                     "series-added-during-slow-tick", "catch-up-observed", "multi-series", "actor-tier",
-                    "actor-tier:timer-late>=1period", "moving-window-tier", "moving-window-tier:align:none",
+                    "actor-tier:timer-late>=1period", "series-ended:SourceStoppedError",
+                    "series-ended:remove_timeseries", "moving-window-tier", "moving-window-tier:align:none",
                     "moving-window-tier:align:offset"]
 REQUIRED_COUNTERS = ["ticks_observed", "runs"]
-ASSUMPTIONS = ["virtual time; sources are healthy channels (source failures are out of this property's scope)"]
+ASSUMPTIONS = ["virtual time", "a series whose source closes or that the user removes is only required to have received a "
+               "gap-free stretch of the shared timeline; the other series are held to the full property"]
 
 
 def budget(tier: str) -> dict[str, Any]:
@@ -70,6 +72,13 @@ def gen(rng: Any, tier: str, i: int) -> Any:
             ev.append([round(period * rng.choice([0.3, 0.5, 1.0, 1.7]), 6), "now", "ok"])
         series.append({"add_at": add_at, "events": ev})
     series.sort(key=lambda s: s["add_at"])
+    # one series may end while the others go on: its source closes (resample() raises, the harness removes it like
+    # the resampling actor does) or the user removes it; the *other* series must not notice
+    if ns >= 2 and rng.random() < 0.3:
+        victim = rng.randrange(ns)
+        frac = rng.choice([0.5, 0.0, 1e-6 / period, 0.999])
+        series[victim]["end"] = {"kind": rng.choice(["close", "remove"]),
+                                 "at": round(max(series[victim]["add_at"], 0.0) + (rng.randint(2, ticks - 5) + frac) * period, 6)}
     lat = []
     maxlat = 0.0
     if rng.random() < 0.75:
@@ -402,7 +411,21 @@ def check(case: dict[str, Any], rec: Any) -> None:
             return
         ks.append(round(q))
     if ks != list(range(ks[0], ks[0] + len(ks))):
-        rec.violation("tick-skipped-or-duplicated", {**w0, "ks": ks[:60]})
+        # a tick is observable only while some series is registered: a missing tick is excused when every series
+        # either starts after it or was ended (scripted close/remove) before it
+        have = set(ks)
+        for k in range(ks[0], ks[-1] + 1):
+            if k in have:
+                continue
+            Tk = align_to + k * per
+            for i, lst in sinks.items():
+                if lst and lst[0]["ts"] < Tk and (i not in r["removed"] or Tk < lst[-1]["ts"]):
+                    rec.violation("tick-skipped-or-duplicated", {**w0, "ks": ks[:60], "missing_k": k, "seen_by_series": i})
+                    break
+            else:
+                rec.count("ticks_without_any_registered_series")
+                continue
+            break
     if not (created <= glob[0] <= created + 2 * per):
         rec.violation("first-tick-outside-[creation,creation+2periods]", {**w0, "first": str(glob[0])})
     late_seen = False
@@ -412,11 +435,23 @@ def check(case: dict[str, Any], rec: Any) -> None:
             rec.violation("series-timestamps-repeated-or-reordered", {**w0, "series": i, "ts": [str(t) for t in tss[:40]]})
             continue
         if not tss:
+            if i in r["faults"]:  # (with slow ticks in between, no bound on when its first tick would have run)
+                rec.count("series_ended_before_their_first_tick_was_due")
+                continue
             if r["added"][i]["at"] + 2 * per < r["stopped_at"]:
                 rec.violation("series-never-received-a-sample", {**w0, "series": i})
             continue
         expect = [g for g in glob if g >= tss[0]]
-        if tss != expect and tss != expect[:-1]:
+        gone = r["removed"].get(i)
+        if gone is not None:
+            rec.bucket("series-ended:" + gone["why"])
+            # an ended series: a gap-free stretch of the shared timeline, nothing after its removal
+            if tss != expect[:len(tss)]:
+                rec.violation("series-timestamps-not-shared-or-gapped", {**w0, "series": i, "ended": str(gone),
+                                                                         "got": [str(t) for t in tss[:40]]})
+            if any(e["t_recv"] > gone["at"] for e in lst):
+                rec.violation("sample-delivered-after-series-was-removed", {**w0, "series": i, "ended": str(gone)})
+        elif tss != expect and tss != expect[:-1]:
             rec.violation("series-timestamps-not-shared-or-gapped", {**w0, "series": i, "got": [str(t) for t in tss[:40]],
                                                                      "global": [str(t) for t in expect[:40]]})
         add = r["added"][i]
